@@ -28,7 +28,7 @@ run_rig() {
     n=$(basename "$D")
     git -C $R/repo checkout -q -- .
     if ! git -C $R/repo apply "$D/patch.diff" 2>/dev/null; then echo "$n: PATCH DOES NOT APPLY"; continue; fi
-    props=${SEED_PAR_PROPS:-$(python3 -c "import json;print(json.load(open('$D/meta.json'))['property'])")}
+    props=${SEED_PAR_PROPS:-$(python3 -c "import json;print(json.load(open('$D/meta.json'))['property'])") $(cat "$D/also_check" 2>/dev/null)}
     for P in $props; do
       out=$(cd $R/verif && ./run "$P" quick 2>&1); rc=$?
       keys=$(python3 -c "import json;print(sorted(set(v['key'] for v in json.load(open('$R/verif/evidence/$P.json')).get('violation_list',[])))[:6])" 2>/dev/null)
